@@ -51,7 +51,9 @@ pub fn exec(cx: &mut Ctx, c: &Case) {
     let (key, nonce) = key_nonce(c.kseed, nlen);
     let mut r = crate::prng::Rng::new(c.kseed ^ 0x5eed);
     let data = r.bytes(c.len);
-    let mut buf = vec![0xA5u8; PRE];
+    // the slice starts at a case-dependent offset, so every 16-byte alignment class is met
+    let pre = PRE + (c.kseed >> 20) as usize % 33;
+    let mut buf = vec![0xA5u8; pre];
     buf.extend_from_slice(&data);
     buf.extend(std::iter::repeat(0x5A).take(POST));
     let sigp = format!("{}|{}|{}", cx.prop, match layout { Layout::Ietf => "ctr32", Layout::Djb => "ctr64", Layout::X => "xchacha" }, api::profile());
@@ -79,7 +81,7 @@ pub fn exec(cx: &mut Ctx, c: &Case) {
             let ty = if c.pos > u32::MAX as u128 { SeekTy::U64 } else { SeekTy::U32 };
             ci.try_seek(ty, c.pos, false).map_err(|_| "seek")?;
         }
-        ci.try_apply(&mut buf[PRE..PRE + c.len]).map_err(|_| "apply")?;
+        ci.try_apply(&mut buf[pre..pre + c.len]).map_err(|_| "apply")?;
         Ok::<(), &'static str>(())
     });
     api::force_backend(0);
@@ -97,13 +99,13 @@ pub fn exec(cx: &mut Ctx, c: &Case) {
     }
     let mut exp = data.clone();
     RefStream::new(layout, drounds, &key, &nonce).xor(c.pos, &mut exp);
-    if let Some(i) = first_diff(&buf[PRE..PRE + c.len], &exp) {
+    if let Some(i) = first_diff(&buf[pre..pre + c.len], &exp) {
         cx.log.violation(
             &format!("{}|wrong-bytes", sigp),
-            &format!("first differing byte {} (absolute position {}): got {:02x} want {:02x}", i, c.pos + i as u128, buf[PRE + i], exp[i]),
+            &format!("first differing byte {} (absolute position {}): got {:02x} want {:02x}", i, c.pos + i as u128, buf[pre + i], exp[i]),
         );
     }
-    if buf[..PRE].iter().any(|&b| b != 0xA5) || buf[PRE + c.len..].iter().any(|&b| b != 0x5A) {
+    if buf[..pre].iter().any(|&b| b != 0xA5) || buf[pre + c.len..].iter().any(|&b| b != 0x5A) {
         cx.log.violation(&format!("{}|outside-write", sigp), "canary bytes around the slice changed");
     }
     cx.log.event("bytes_compared", c.len as u64);
